@@ -248,10 +248,18 @@ def build(dag, ghosts=(), trees=None, fmt="2a", store=None, path="b", shared=Fal
         pids = [node_id(ghosts, p) for p in ps]
         left_ghost = bool(ps) and ps[0] in ghosts
         if left_ghost:
+            # world.commit_spec would first move the branch to the (absent) left-hand parent;
+            # commit on top of an empty branch instead: the new revision gets revno 1
             with b.lock_write():
-                b.set_last_revision_info(0, pids[0])
-        mw.commit_spec(b, rid(i), pids, (trees or {}).get(i, {}), timestamp=1_000_000_000.0 + i,
-                       allow_ghost=left_ghost)
+                b.set_last_revision_info(0, NULL)
+            tree = b.create_memorytree()
+            with tree.lock_write():
+                tree.set_parent_ids(pids, allow_leftmost_as_ghost=True)
+                mw.set_tree_state(tree, (trees or {}).get(i, {}))
+                tree.commit("commit %s" % rid(i).decode(), rev_id=rid(i), timestamp=1_000_000_000.0 + i, timezone=0,
+                            committer="Committer <c@example.com>", allow_pointless=True)
+            continue
+        mw.commit_spec(b, rid(i), pids, (trees or {}).get(i, {}), timestamp=1_000_000_000.0 + i)
     return store, store.url + path + "/"
 
 
